@@ -66,6 +66,10 @@ Definition float_alpha : alpha :=
           [SUn [45]; fun e => SBin [47] e (SNum [50])]
           [[61]; [60]; [43]; [45]; [42]].
 
+(* prefix-operator variants of the float table: prefix operators at every operand position *)
+Definition float_var_alpha (unary : list str) : alpha :=
+  mkAlpha [nm 97; nm 98; SNum [50]] (map SUn unary) [[61]; [43]; [45]; [42]; [94]].
+
 (* ---------- assignments ---------- *)
 Definition bool_assigns : list (list bool) :=
   [[false; false; false]; [false; false; true]; [false; true; false]; [false; true; true];
@@ -161,7 +165,9 @@ Inductive c19_body :=
 | CBoolEnum (flags : list bool) (n : nat) (start : N) (count : nat) (errs : bool) (h1 h2 : N)
 | CBoolExpl (flags : list bool) (toks : option (list (N * str))) (src : sexp) (on off : N)
 | CFloatEnum (flags : list bool) (n : nat) (idx : N) (on off : list Z)
-| CFloatExpl (flags : list bool) (toks : option (list (N * str))) (src : sexp) (on off : list Z).
+| CFloatExpl (flags : list bool) (toks : option (list (N * str))) (src : sexp) (on off : list Z)
+| CFloatVarEnum (unary : list str) (flags : list bool) (n : nat) (idx : N) (on off : list Z)
+| CFloatVarExpl (unary : list str) (flags : list bool) (toks : option (list (N * str))) (src : sexp) (on off : list Z).
 
 (* float observations travel as a flat list of integers, two per assignment: m and e of the value m*2^e;
    (0,1) = -0, (+-1,100001) = +-Inf, (0,100002) = NaN, (0,100003) = an error; [] = Parse/Generate failed *)
@@ -282,6 +288,24 @@ Definition c19_im (c : c19_case) : bool :=
           fl_res_ok ron (fl_obs on) && fl_res_ok roff (fl_obs off)
       | None => false
       end
+  | CFloatVarEnum unary flags n idx on off =>
+      let cfg := with_flags flags (float_var_cfg unary) in
+      let al := float_var_alpha unary in
+      let e := unrank al (counts al n) (S n) n idx in
+      match flat cfg (layout_of idx) e with
+      | Some ts =>
+          let '(ron, roff) := results2 cfg float_args ts float_assigns in
+          fl_res_ok ron (fl_obs on) && fl_res_ok roff (fl_obs off)
+      | None => false
+      end
+  | CFloatVarExpl unary flags toks src on off =>
+      let cfg := with_flags flags (float_var_cfg unary) in
+      match case_toks cfg toks src with
+      | Some ts =>
+          let '(ron, roff) := results2 cfg float_args ts float_assigns in
+          fl_res_ok ron (fl_obs on) && fl_res_ok roff (fl_obs off)
+      | None => false
+      end
   end.
 
 (* the implementation's answers are the values the operators' own definitions give *)
@@ -312,5 +336,13 @@ Definition c19_is (c : c19_case) : bool :=
       fl_spec_ok s (fl_obs on) && fl_spec_ok s (fl_obs off)
   | CFloatExpl flags _ src on off =>
       let s := spec_results (with_flags flags float_cfg) float_args src float_assigns in
+      fl_spec_ok s (fl_obs on) && fl_spec_ok s (fl_obs off)
+  | CFloatVarEnum unary flags n idx on off =>
+      let cfg := with_flags flags (float_var_cfg unary) in
+      let al := float_var_alpha unary in
+      let s := spec_results cfg float_args (unrank al (counts al n) (S n) n idx) float_assigns in
+      fl_spec_ok s (fl_obs on) && fl_spec_ok s (fl_obs off)
+  | CFloatVarExpl unary flags _ src on off =>
+      let s := spec_results (with_flags flags (float_var_cfg unary)) float_args src float_assigns in
       fl_spec_ok s (fl_obs on) && fl_spec_ok s (fl_obs off)
   end.
